@@ -6,6 +6,22 @@ import VarlinkVerif.Model.UpgradedLoop
 
 namespace VV
 
+/-- the tie to server.rs for the closure's bookkeeping: in upgraded mode the returned bytes are always kept -/
+theorem keepUnread_upgraded (sw : Bool) : Extracted.keepUnread sw true = true := by
+  cases sw <;> rfl
+
+@[simp] theorem workerUnread_upgraded (sw : Bool) (u : Bytes) : workerUnread sw true u = u := by
+  simp [workerUnread, keepUnread_upgraded]
+
+/-- … the switch is recognised exactly once, and buffered bytes are handed over without waiting for more -/
+theorem switchedNow_spec :
+    Extracted.switchedNow false true = true ∧ Extracted.switchedNow true true = false ∧
+    Extracted.switchedNow false false = false := by
+  decide
+
+theorem handOverAtOnce_spec (e : Bool) : Extracted.handOverAtOnce true e = !e := by
+  cases e <;> rfl
+
 theorem UpPolicy.pull_conserves (p : UpPolicy) (buf : Bytes) (segs : List Bytes) :
     (p.pull buf segs).1 ++ (p.pull buf segs).2.flatten = buf ++ segs.flatten := by
   induction segs generalizing buf with
@@ -28,7 +44,7 @@ theorem UpPolicy.loop_conserves (p : UpPolicy) (n : Nat) (u : Bytes) (segs : Lis
   | zero => simp [UpPolicy.loop]
   | succ n ih =>
     have hs := p.step_conserves u segs
-    simp only [UpPolicy.loop]
+    simp only [UpPolicy.loop, workerUnread_upgraded]
     by_cases he : (p.step u segs).2.2.isEmpty = true
     · have h0 : (p.step u segs).2.2 = [] := by simpa using he
       simp only [he, if_true]
@@ -37,7 +53,7 @@ theorem UpPolicy.loop_conserves (p : UpPolicy) (n : Nat) (u : Bytes) (segs : Lis
     · have hf : (p.step u segs).2.2.isEmpty = false := by simpa using he
       simp only [hf, Bool.false_eq_true, if_false]
       have := ih (p.step u segs).2.1 (p.step u segs).2.2
-      simp only [List.flatten_cons, List.append_assoc] at this ⊢
+      simp only [workerUnread_upgraded, List.flatten_cons, List.append_assoc] at this ⊢
       rw [this]
       simpa [List.append_assoc] using hs
 
@@ -182,7 +198,7 @@ theorem lineLoop_spec (n : Nat) (u : Bytes) (segs : List Bytes) (hu : hasNl u = 
     obtain ⟨s1, s2, s3⟩ := lineStep_spec u segs
     obtain ⟨p1, p2, p3⟩ := linePull_spec u segs
     have hc := linePolicy.pull_conserves u segs
-    simp only [UpPolicy.loop]
+    simp only [UpPolicy.loop, workerUnread_upgraded]
     by_cases he : (linePolicy.step u segs).2.2.isEmpty = true
     · have h0 : (linePolicy.pull u segs).2 = [] := by rw [← s3]; simpa using he
       simp only [he, if_true]
@@ -226,7 +242,7 @@ theorem lineLoop_spec' (n : Nat) (u : Bytes) (segs : List Bytes) (hn : segs.leng
     obtain ⟨s1, s2, s3⟩ := lineStep_spec u segs
     rw [linePull_of_nl u segs hu] at s1 s2 s3
     simp only at s1 s2 s3
-    simp only [UpPolicy.loop]
+    simp only [UpPolicy.loop, workerUnread_upgraded]
     by_cases he : (linePolicy.step u segs).2.2.isEmpty = true
     · have h0 : segs = [] := by rw [s3] at he; simpa using he
       subst h0
